@@ -251,6 +251,11 @@ def return_cases(an, f):
                 if pos is None:
                     continue
                 out.append((el, a, pos, list(an.pre_parts[pos].items())))
+        elif c.get("k") == "cond" and cval(c) is None and any(cval(c[x]) is not None for x in ("a", "b")):
+            # `return test ? CONSTANT : other`: each arm is a return of its own (an error constant behind a store is a refusal
+            # behind a store, whatever the other arm answers); the states are those of the return element
+            for arm in ("a", "b"):
+                out.append((el, c[arm], (bid, idx), list(parts.items())))
         else:
             out.append((el, e, (bid, idx), list(parts.items())))
     return out
@@ -471,7 +476,8 @@ def run_layout(prog, ctx=None):
             for j, a in enumerate(e.get("args", [])):
                 if root_of(a) in prot.ids and f.T(strip(a, all_casts=True).get("t")).get("k") == "ptr":
                     for g in prog.resolve_call(f, e):
-                        if not g.nocfg and g.file.startswith("mptplot/") and any(x.get("k") == "ret" and x.get("e") is not None and (cval(x["e"]) or 0) < 0 for bb, ii, x in g.elements()):
+                        if not g.nocfg and g.file.startswith("mptplot/") and any(x.get("k") == "ret" and x.get("e") is not None and
+                                                                                   any((cval(m) or 0) < 0 for m in walk(x["e"]) if m.get("k") in ("lit", "ref", "un", "cast", "cond")) for bb, ii, x in g.elements()):
                             work.append((g, j))
     return res
 
